@@ -15,6 +15,8 @@ import (
 
 	cstypes "github.com/kardiachain/go-kardia/consensus/types"
 	"github.com/kardiachain/go-kardia/lib/log"
+	kproto "github.com/kardiachain/go-kardia/proto/kardiachain/types"
+	"github.com/kardiachain/go-kardia/types"
 )
 
 // deliverToFixpoint: drain + deliver everything + the reactor's catch-up gossip until nothing moves.
@@ -37,6 +39,128 @@ func (net *vfNet) deliverToFixpoint() {
 			return
 		}
 	}
+}
+
+// regossipNewestFirst hands node pos the votes of the HIGHEST round seen at its height before
+// anything else (a legal reordering: a node that was cut off hears the newest votes first and has
+// to skip several rounds in one step instead of walking through them).
+func (net *vfNet) regossipNewestFirst(pos int) {
+	n := net.nodes[pos]
+	h := n.cs.Height
+	msgs := net.allMsgs[h]
+	var top uint32
+	for _, mi := range msgs {
+		if vm, ok := mi.Msg.(*VoteMessage); ok && vm.Vote.Round > top {
+			top = vm.Vote.Round
+		}
+	}
+	for rd := top; rd > n.cs.Round && n.cs.Height == h; rd-- {
+		for _, mi := range msgs {
+			if n.cs.Height != h {
+				break
+			}
+			if vm, ok := mi.Msg.(*VoteMessage); ok && vm.Vote.Round == rd {
+				n.cs.handleMsg(mi)
+			}
+		}
+	}
+	net.drain()
+}
+
+// lagScenario: one correct node is cut off while the others, with nil votes of the faulty
+// validators, go through `rounds` failed rounds (no proposal reaches anybody but its author);
+// then the partition heals and the lagging node hears the newest round first, so that it has to
+// skip several rounds in ONE step. Returns how many rounds the lagging node jumped at once.
+func (net *vfNet) lagScenario(o *vfOut, rounds int) int {
+	r := net.r
+	lag := r.Intn(len(net.nodes))
+	lagIdx := net.nodes[lag].idx
+	var rest, byz []int
+	for i := range net.keys {
+		if net.byz[i] {
+			byz = append(byz, i)
+		}
+		if i != lagIdx {
+			rest = append(rest, i)
+		}
+	}
+	net.parts = [][]int{{lagIdx}, rest}
+	h := net.nodes[lag].cs.Height
+	chainID := net.nodes[lag].cs.state.ChainID
+	target := net.nodes[lag].cs.Round + uint32(rounds) + 1
+	for it := 0; it < 12*rounds+20; it++ {
+		net.drain()
+		// proposals and parts are lost; votes between the connected nodes arrive
+		kept := net.pool[:0]
+		for _, p := range net.pool {
+			if c := vfClassify(p.mi.Msg); c.kind == "proposal" || c.kind == "part" {
+				continue
+			}
+			kept = append(kept, p)
+		}
+		net.pool = kept
+		net.deliverIf(func(p vfPending, c vfMsgClass) bool {
+			return p.to != lag && (p.from < 0 || p.from != lagIdx)
+		})
+		var top uint32
+		reached := true
+		for pos, n := range net.nodes {
+			if pos == lag || n.cs.Height != h {
+				continue
+			}
+			if n.cs.Round > top {
+				top = n.cs.Round
+			}
+			if n.cs.Round < target {
+				reached = false
+			}
+		}
+		if reached {
+			break
+		}
+		// the faulty validators vote nil in the newest round, to the connected nodes
+		for _, b := range byz {
+			for _, typ := range []kproto.SignedMsgType{kproto.PrevoteType, kproto.PrecommitType} {
+				for pos, n := range net.nodes {
+					if pos == lag || n.cs.Height != h {
+						continue
+					}
+					vi, ok := vfValIndex(n.cs, net.addrs[b])
+					if !ok {
+						continue
+					}
+					if v := net.signVote(b, h, top, typ, types.BlockID{}, chainID, vi); v != nil {
+						net.record(v)
+						m := msgInfo{&VoteMessage{v}, "byz"}
+						net.remember(m)
+						n.cs.handleMsg(m)
+					}
+				}
+			}
+		}
+		net.drain()
+		for pos, n := range net.nodes {
+			if pos != lag && n.cs.Height == h {
+				net.fireTimeout(n, true)
+			}
+		}
+	}
+	net.parts = nil
+	before := net.nodes[lag].cs.Round
+	if vfEnvInt("VERIF_DEBUG", 0) > 0 {
+		fmt.Printf("LAG lag=%d target=%d h=%d: %s\n", lagIdx, target, h, net.signature())
+	}
+	if net.nodes[lag].cs.Height != h {
+		return 0
+	}
+	net.regossipNewestFirst(lag)
+	if vfEnvInt("VERIF_DEBUG", 0) > 0 {
+		fmt.Printf("LAG after: %s\n", net.signature())
+	}
+	if net.nodes[lag].cs.Height != h {
+		return 0
+	}
+	return int(net.nodes[lag].cs.Round) - int(before)
 }
 
 func (net *vfNet) signature() string {
@@ -154,6 +278,14 @@ func TestVerifC04(t *testing.T) {
 			net.dupPct = r.Pick(0, 10, 30)
 			prefix := r.Pick(0, 50, 300, 1000, 2000)
 			restarts := 0
+			if r.Chance(30) {
+				// directed prefix: a node that falls several rounds behind and catches up in one step
+				prefix = r.Pick(0, 50)
+				net.dropPct, net.dupPct = 0, 0
+				jumped := net.lagScenario(o, 2+r.Intn(3))
+				o.Stat(fmt.Sprintf("prefix.lag-scenario.jump=%d", jumped))
+				net.dropPct = r.Pick(0, 5)
+			}
 			for s := 0; s < prefix; s++ {
 				net.drain()
 				x := r.Intn(1000)
@@ -205,6 +337,13 @@ func TestVerifC04(t *testing.T) {
 						nd := net.nodes[pos]
 						fmt.Printf("RESTART step=%d node=%d stored=%d csHeight=%d lastBlockID=%v\n", s, nd.idx, nd.bo.Height(), nd.cs.Height, nd.cs.state.LastBlockID)
 					}
+				case x < 958:
+					lagPos := r.Intn(len(net.nodes))
+					before := net.nodes[lagPos].cs.Round
+					net.regossipNewestFirst(lagPos)
+					if net.nodes[lagPos].cs.Round > before+1 {
+						o.Stat("prefix.multi-round-skip")
+					}
 				default:
 					for k := 0; k < 30; k++ {
 						net.drain()
@@ -213,6 +352,16 @@ func TestVerifC04(t *testing.T) {
 						}
 					}
 					net.regossip(r.Intn(len(net.nodes)), r.Chance(15))
+				}
+			}
+			if r.Bool() {
+				// the nodes that fell behind hear the newest round first
+				for pos := range net.nodes {
+					before := net.nodes[pos].cs.Round
+					net.regossipNewestFirst(pos)
+					if net.nodes[pos].cs.Round > before+1 {
+						o.Stat("heal.multi-round-skip")
+					}
 				}
 			}
 			// synchronous suffix: network healed, nothing dropped, faulty validators silent or noisy
